@@ -42,7 +42,6 @@ Definition opkind_eqb a b :=
   | _, _ => false
   end.
 Definition op_eqb (a b : opkind * bool) := opkind_eqb (fst a) (fst b) && Bool.eqb (snd a) (snd b).
-Definition memz (x : Z) (l : list Z) := existsb (Z.eqb x) l.
 Definition same_set (a b : list Z) :=
   forallb (fun x => memz x b) a && forallb (fun x => memz x a) b && Nat.eqb (length a) (length b).
 
@@ -55,7 +54,8 @@ Record case := mk_case {
 
 Definition model_agrees (c : case) : bool :=
   let '(o, x, s) := run_top ref_env (c_cfg c) (fault_at (c_fault c)) (c_manual c) (c_prog c) (c_extra c) (init_st []) in
-  obs_eqb o (o_top c)
+  scoped [] (c_prog c)    (* the generator's contract: the program is in the domain of the theorems *)
+  && obs_eqb o (o_top c)
   && list_eqb cls_eqb x (o_extra c)
   && same_set (s_db s) (o_table c)
   && list_eqb op_eqb (rev (s_ops s)) (o_ops c)
@@ -81,13 +81,12 @@ Fixpoint spec_obs (nest : bool) (o : obs) (ts : tbl * ustack) : tbl * ustack :=
   | OS n CNil => (fst ts, (n, fst ts) :: snd ts)
   | ORb n CNil => match ucut n (snd ts) with Some (t, l) => (t, l) | None => ts end
   | OC _ body exit _ =>
-    let ts' := (fix go (l : list obs) (a : tbl * ustack) : tbl * ustack :=
-                  match l with [] => a | x :: r => go r (spec_obs nest x a) end) body ts in
+    let ts' := fold_left (fun a x => spec_obs nest x a) body ts in
     match exit with CNil => ts' | _ => if nest then ts else ts' end
   | _ => ts
   end.
-Fixpoint spec_list (nest : bool) (l : list obs) (a : tbl * ustack) : tbl * ustack :=
-  match l with [] => a | x :: r => spec_list nest r (spec_obs nest x a) end.
+Definition spec_list (nest : bool) (l : list obs) (a : tbl * ustack) : tbl * ustack :=
+  fold_left (fun a x => spec_obs nest x a) l a.
 
 Definition commit_ok (ops : list (opkind * bool)) :=
   existsb (fun o => opkind_eqb (fst o) KCommit && negb (snd o)) ops.
@@ -108,7 +107,7 @@ Fixpoint prop_ok (o : obs) : bool :=
   match o with
   | OC entered body exit ret =>
     (if is_nil exit then (if entered then is_nil ret else negb (is_nil ret)) else cls_eqb ret exit)
-    && (fix go (l : list obs) : bool := match l with [] => true | x :: r => prop_ok x && go r end) body
+    && forallb prop_ok body
   | _ => true
   end.
 (* the outermost call: nil iff function returned nil and the commit succeeded; a failed
@@ -119,36 +118,34 @@ Definition top_ok (top : obs) (ops : list (opkind * bool)) : bool :=
     (if is_nil exit
      then (if entered && commit_ok ops then is_nil ret else cls_eqb ret (CErr fault_err))
      else cls_eqb ret exit)
-    && (fix go (l : list obs) : bool := match l with [] => true | x :: r => prop_ok x && go r end) body
+    && forallb prop_ok body
   | _ => false
   end.
 
-(* "leaves the enclosing transaction usable": a statement or SAVEPOINT reports an error only
-   when the injected fault hit it, and then reports exactly that fault *)
+(* "leaves the enclosing transaction usable": a statement or SavePoint call reports an error
+   only when an injected fault hit it, and then reports exactly that fault *)
 Fixpoint stmt_errs (o : obs) : list cls :=
   match o with
   | OW _ r | OR r _ => if is_nil r then [] else [r]
-  | OC _ body _ _ => (fix go (l : list obs) : list cls := match l with [] => [] | x :: r => stmt_errs x ++ go r end) body
+  | OC _ body _ _ => flat_map stmt_errs body
   | _ => []
   end.
 Fixpoint save_errs (o : obs) : list cls :=
   match o with
   | OS _ r => if is_nil r then [] else [r]
-  | OC _ body _ _ => (fix go (l : list obs) : list cls := match l with [] => [] | x :: r => save_errs x ++ go r end) body
+  | OC _ body _ _ => flat_map save_errs body
   | _ => []
   end.
 Fixpoint rb_errs (o : obs) : list cls :=
   match o with
   | ORb _ r => if is_nil r then [] else [r]
-  | OC _ body _ _ => (fix go (l : list obs) : list cls := match l with [] => [] | x :: r => rb_errs x ++ go r end) body
+  | OC _ body _ _ => flat_map rb_errs body
   | _ => []
   end.
+Definition countf (k : opkind) (ops : list (opkind * bool)) : nat :=
+  length (filter (fun o => opkind_eqb (fst o) k && snd o) ops).
 Definition errs_explained (errs : list cls) (k : opkind) (ops : list (opkind * bool)) : bool :=
-  match errs with
-  | [] => true
-  | [e] => faulted k ops && cls_eqb e (CErr fault_err)
-  | _ => false
-  end.
+  forallb (fun e => cls_eqb e (CErr fault_err)) errs && Nat.leb (length errs) (countf k ops).
 Definition usable (top : obs) (ops : list (opkind * bool)) : bool :=
   errs_explained (stmt_errs top) KStmt ops && errs_explained (save_errs top) KSave ops.
 
